@@ -321,6 +321,40 @@ pub struct World {
     pub tasks: HashMap<String, JoinHandle<()>>,
     pub bg: Vec<JoinHandle<()>>,
     pub keep: Vec<Box<dyn std::any::Any + Send>>,
+    /// the scripted link between two wtransport endpoints (cfg.link): while set, the forwarder
+    /// drops every datagram in both directions
+    pub cut: Arc<std::sync::atomic::AtomicBool>,
+}
+
+/// A UDP relay in front of `server`; returns the address clients connect to. While `cut` is set
+/// every packet (both directions) is dropped: QUIC sees loss, nothing is acknowledged.
+async fn spawn_link(server: SocketAddr, cut: Arc<std::sync::atomic::AtomicBool>) -> (SocketAddr, JoinHandle<()>) {
+    let front = tokio::net::UdpSocket::bind("127.0.0.1:0").await.expect("link front");
+    let back = tokio::net::UdpSocket::bind("127.0.0.1:0").await.expect("link back");
+    let addr = front.local_addr().unwrap();
+    let h = tokio::spawn(async move {
+        let mut client: Option<SocketAddr> = None;
+        let mut b1 = vec![0u8; 65536];
+        let mut b2 = vec![0u8; 65536];
+        loop {
+            tokio::select! {
+                r = front.recv_from(&mut b1) => {
+                    let Ok((n, from)) = r else { continue };
+                    client = Some(from);
+                    if !cut.load(Ordering::SeqCst) {
+                        let _ = back.send_to(&b1[..n], server).await;
+                    }
+                }
+                r = back.recv_from(&mut b2) => {
+                    let Ok((n, _)) = r else { continue };
+                    if let (Some(c), false) = (client, cut.load(Ordering::SeqCst)) {
+                        let _ = front.send_to(&b2[..n], c).await;
+                    }
+                }
+            }
+        }
+    });
+    (addr, h)
 }
 
 /// Option<usize> without JSON null (the TLA+ JSON reader rejects null): None = -1.
@@ -1005,6 +1039,14 @@ async fn setup(w: &mut World, scn: &Value) {
                 .parse()
                 .unwrap();
             let cep = Endpoint::client(sut_client_config_with(&cfg, addr, Some(server_hash))).expect("client ep");
+            // cfg.link: the client reaches the server through a relay the script can cut
+            let addr = if cfg.get("link").and_then(|v| v.as_bool()).unwrap_or(false) {
+                let (a, h) = spawn_link(addr, w.cut.clone()).await;
+                w.bg.push(h);
+                a
+            } else {
+                addr
+            };
             let (swho, cwho) = if role == "server" { ("app", "app2") } else { ("app2", "app") };
             let log = w.log.clone();
             let scn2 = scn.clone();
@@ -1692,6 +1734,13 @@ async fn run_step(w: &mut World, step: &Value) {
         (_, "sleep") => {
             tokio::time::sleep(Duration::from_millis(u(step, "ms", 10))).await;
         }
+        // the link between the two endpoints is cut / restored (cfg.link); logged as an operation of
+        // the scripted side so that the stream monitors see it in program order
+        (_, "link") => {
+            let cut = step.get("cut").and_then(|v| v.as_bool()).unwrap_or(false);
+            w.cut.store(cut, Ordering::SeqCst);
+            w.log.emit(&who, "op_done", fields! {"op" => if cut { "cut" } else { "uncut" }, "tag" => tag.clone(), "res" => "ok"});
+        }
         (_, "mark") => {
             w.log.emit(&who, "mark", fields! {"name" => s(step, "name")});
         }
@@ -2153,6 +2202,7 @@ pub async fn run_scenario(log: Arc<Log>, scn: &Value) {
         tasks: HashMap::new(),
         bg: Vec::new(),
         keep: Vec::new(),
+        cut: Arc::new(std::sync::atomic::AtomicBool::new(false)),
     };
     setup(&mut w, scn).await;
     log.emit(
@@ -2259,6 +2309,7 @@ pub async fn measure_idle(scn: &Value, wait_ms: u64) -> (u64, String) {
         tasks: HashMap::new(),
         bg: Vec::new(),
         keep: Vec::new(),
+        cut: Arc::new(std::sync::atomic::AtomicBool::new(false)),
     };
     setup(&mut w, scn).await;
     let Some(c) = w.app.clone() else { return (0, "nosession".into()) };
